@@ -229,6 +229,11 @@ func (s IndexStep) Apply(val Value) (Value, error) {
 	// apply the correct marks for the result.
 	has, _ := val.HasIndex(s.Key).Unmark()
 	if !has.IsKnown() {
+		if val.Type().IsTupleType() {
+			// The elements of a tuple can have different types, so the
+			// result type is not known either.
+			return DynamicVal, nil
+		}
 		return UnknownVal(val.Type().ElementType()), nil
 	}
 	if !has.True() {
